@@ -305,6 +305,18 @@ class QueryEval:
                 # bool field as usize
                 return [({(f, ('bool',)): True}, 1), ({(f, ('bool',)): False}, 0)]
             return self.ev(e[2], args, b)
+        if k == 'agg' and e[1] == 'closure' and len(e) == 4:
+            # a closure value: its body and what it captures
+            alts = [({}, [])]
+            for o in e[2]:
+                new = []
+                for p0, caps in alts:
+                    for p1, v in self.ev(o, args, b):
+                        d = merge(p0, p1)
+                        if d is not None:
+                            new.append((d, caps + [v]))
+                alts = new
+            return [(p0, ('CLOSURE', e[3], tuple(caps))) for p0, caps in alts]
         if k == 'agg':
             vn = variant_name(e)
             if vn == 'None':
@@ -319,6 +331,15 @@ class QueryEval:
                     if not (isinstance(v, tuple) and v[0] == 'Some'):
                         raise Unknown('payload of a non-Some')
                     out.append((p1, v[1]))
+                return out
+            if e[2].isdigit():
+                # a captured variable read through the closure environment
+                out = []
+                for p1, v in self.ev(e[1], args, b):
+                    if isinstance(v, tuple) and v and v[0] == 'CLOSURE' and int(e[2]) < len(v[2]):
+                        out.append((p1, v[2][int(e[2])]))
+                    else:
+                        raise Unknown('field read %r' % (e,))
                 return out
             raise Unknown('field read %r' % (e,))
         if k == 'call':
@@ -338,6 +359,24 @@ class QueryEval:
                         d = merge(p1, p2)
                         if d is not None:
                             out.append((d, v))
+                return out
+            if fn in ('core::option::Option::<T>::and_then', 'core::option::Option::<T>::map') and len(e[2]) == 2:
+                # None stays None; for Some(v) the closure decides
+                out = []
+                for p1, ov in self.ev(e[2][0], args, b):
+                    if ov is None:
+                        out.append((p1, None))
+                        continue
+                    if not (isinstance(ov, tuple) and ov[0] == 'Some'):
+                        raise Unknown('combinator on a non-Option')
+                    for p2, cl in self.ev(e[2][1], args, b):
+                        if not (isinstance(cl, tuple) and cl and cl[0] == 'CLOSURE'):
+                            raise Unknown('combinator without a closure literal')
+                        for p3, rv_ in self.alternatives(cl[1], [cl, ov[1]]):
+                            d = merge(merge(p1, p2) or {}, p3) if merge(p1, p2) is not None else None
+                            if d is None:
+                                continue
+                            out.append((d, rv_ if s == 'and_then' else ('Some', rv_)))
                 return out
             if self.f.body(fn) is not None:
                 # crate-local helper: inline with evaluated arguments
